@@ -21,7 +21,7 @@ RULE = ("cases = (A) the real header templates DepthFirstTraverser / MaxPredicti
         "generated point id sequence with the model exactly, and the model side evaluates the hypotheses of the theorems (tt_okb) on "
         "the table (inv=1 expected). '!' lines: md_wf of PRED on the real maps, one entry per visited vertex, every point of a face "
         "exactly once when points and vertices correspond one to one, causality (first face of a traversal or the whole opposite "
-        "face has smaller entries), encoder/decoder agreement under the corner correspondence d -> Next^(d%3)(order[d/3]) for "
+        "face has smaller entries), PRED's mp_guard_ok (the crease flags the constrained multi-parallelogram encoder would push per context, counted by its own walk on the real maps, never exceed num_corners), encoder/decoder agreement under the corner correspondence d -> Next^(d%3)(order[d/3]) for "
         "corners, entries, vertex maps and the attribute values at the points of entry k, hangs. A case is distinct by its text; "
         "non-trivial when it produced more than one entry")
 
